@@ -210,6 +210,25 @@ def shard_methods(sh, part):
                 untouched('generate_labels')
                 sh.case(('labels', n, ncls, repr(p), dec.__name__), True, 'labels/%d-classes/%s' % (ncls, type(p).__name__), sample={'classes': ncls, 'p': repr(p), 'counts': [int((y == c).sum()) for c in range(ncls)], 'n': n} if t % 4 == 0 else None)
 
+        # built-in class relations (no decision function supplied): labels are still a monotone step function of the documented decision value
+        for relation, fn in (('linear', lambda x: np.sum(2 * x + 3, axis=1)), ('nonlinear', lambda x: np.sum(2 * np.sin(x) + 2 * np.cos(x), axis=1))):
+            ncl = rng.choice([2, 3, 5])
+            if n < ncl * 2:
+                continue
+            ok, yb = sh.call('labels-monotone-proportions', 'generate_labels', cc.generate_labels, X, ncl, 0.5, 2, None, relation)
+            if not ok:
+                continue
+            yb = np.asarray(yb)
+            dv = fn(X0)               # the documented formula on the array as given, in its own integer type
+            o_ = np.argsort(dv, kind='stable')
+            ys_, ds_ = yb[o_], dv[o_]
+            # monotone: a larger decision value never gets a smaller label; equal decision values get equal labels
+            viol = [(float(ds_[i]), int(ys_[i]), float(ds_[i + 1]), int(ys_[i + 1])) for i in range(len(ys_) - 1) if (ds_[i + 1] > ds_[i] and ys_[i + 1] < ys_[i]) or (ds_[i + 1] == ds_[i] and ys_[i + 1] != ys_[i])]
+            sh.check('labels-monotone-proportions', not viol and set(yb.tolist()) <= set(range(ncl)) and len(yb) == n, 'built-in-relation:labels-not-monotone-in-the-decision-value',
+                     lambda: {'relation': relation, 'classes': ncl, 'violations': viol[:5]})
+            sh.check('info-indices', cc.dataset_info['labels'] == {'class_relation': relation, 'n_class': ncl}, 'dataset_info:labels-record-wrong', lambda: {'info': repr(cc.dataset_info['labels'])})
+            sh.case(('labels-builtin', n, ncl, relation), True, 'labels/built-in-' + relation)
+
         # ---- noise -------------------------------------------------------------------------------
         k = rng.choice([2, 3])
         if n >= 8:
